@@ -1250,14 +1250,21 @@ def r06e(P, R):
         loops_here = [c_[1] for c_ in enclosing_contexts(rg, i) if c_[0] == "loop"]
         if loops_here:
             loop = loops_here[0]
+            # parameters of inlined helpers stand for the caller's expression (also when the helper writes through them)
+            param_arg = {}
+            for n_, _ in nodes:
+                if n_.get("k") in ("Call", "MethodCall") and "inl" in n_:
+                    for pp, aa in zip(n_["inl"]["params"], ([n_["recv"]] if n_.get("k") == "MethodCall" else []) + n_["args"]):
+                        if pp.get("k") == "Binding":
+                            param_arg[pp["local"]] = aa
             used, seen_l, todo = set(), set(), [fi]
             while todo:
                 for y in subnodes(todo.pop()):
                     if y.get("k") == "Path" and "local" in y and y["local"] not in seen_l:
                         seen_l.add(y["local"])
                         used.add(y["local"])
-                        if y["local"] in C.single:
-                            todo.append(C.single[y["local"]])
+                        if y["local"] in C.single or y["local"] in param_arg:
+                            todo.append(C.single.get(y["local"]) or param_arg[y["local"]])
             lets = {b_["local"]: n_ for n_, _ in nodes if n_.get("k") == "Let" for b_ in subnodes(n_["pat"]) if b_.get("k") == "Binding"}
             outer = {l_ for l_ in used if l_ in lets and not templates_contains(loop, lets[l_]) and "usize" in norm(str(lets[l_]["pat"].get("t", "")))}
 
@@ -1266,6 +1273,8 @@ def r06e(P, R):
                 while isinstance(e_, dict) and e_.get("k") in ("Index", "Field"):
                     e_ = strip(e_["e"])
                 e_ = C.resolve(e_)
+                while isinstance(e_, dict) and e_.get("k") == "Path" and e_.get("local") in param_arg:
+                    e_ = C.resolve(param_arg[e_["local"]])
                 return e_.get("local") if isinstance(e_, dict) and e_.get("k") == "Path" else None
             writes = [(x, root_local(x["l"])) for x in subnodes(loop) if x.get("k") in ("Assign", "AssignOp") and strip(x["l"]).get("k") == "Index"]
             writes = [(x, l_) for x, l_ in writes if l_ in outer]
